@@ -32,10 +32,10 @@ def plan(m, thorough):
     if m <= 3:
         return None, 4000
     if m <= 4:
-        return (None, 8000) if thorough else (2, 1200)
+        return (None, 4000) if thorough else (2, 1200)
     if m <= 6:
-        return (3, 6000) if thorough else (2, 400)
-    return (2, 4000) if thorough else (1, 300)
+        return (2, 1500) if thorough else (2, 400)
+    return (1, 600) if thorough else (1, 300)
 
 
 def make_judge(k):
